@@ -15,7 +15,7 @@ import math
 import numpy as np
 from scipy import sparse as sp
 
-from checks.common import comps, hash_tag, result_to_arr, sparse_to_arr, to_sparse
+from checks.common import comps, hash_tag, relayout, result_to_arr, sparse_to_arr, to_sparse
 from qmc import gen as G
 from qmc import oracle as O
 from qmc.loader import load
@@ -222,6 +222,15 @@ def run_case(case, seed):
                     ok2, SHH = call(f, SH)
                     if not ok2 or tuple(SHH.shape) != (m, k) or not exact_eq(sparse_to_arr(SHH), A):
                         fails.append(fail("hermitian_involution_sparse", f"{ca} via {nm}", via=nm, **tags))
+            if cb in ("generic", "ints"):
+                for lay in ("F", "T", "view"):
+                    ok, got = call(lambda: G.from_quat(u.quat_matmat(relayout(G.to_quat(A), lay), relayout(G.to_quat(B), lay))))
+                    evals += 1
+                    if not ok or not exact_eq(got, Cexp):
+                        fails.append(fail("product!=definition", f"{ca}x{cb} operands in memory layout {lay}", path="dd", layout=lay, **tags))
+                    ok, got = call(lambda: G.from_quat(u.quat_hermitian(relayout(G.to_quat(A), lay))))
+                    if not ok or not exact_eq(got, AH_exp):
+                        fails.append(fail("hermitian_dense", f"{ca} in memory layout {lay}", layout=lay, **tags))
             # (AB)^H = B^H A^H through every path
             BH_exp = O.qH(B)
             CH_exp = O.qH(Cexp)
